@@ -140,6 +140,7 @@ def check(ctx) -> None:
     r27(ctx)
     r28(ctx)
     r29(ctx)
+    r210(ctx)
 
 
 def r21(ctx, cls) -> None:
@@ -674,3 +675,76 @@ def r29(ctx) -> None:
                 '":2,<flags>" suffix, its info is \'\' (falsy) although the '
                 'file exists — every CHECK reports * n EXPUNGE for a message '
                 'that still exists and reset() re-adds it under a new UID')
+
+
+DROPPING = {'clear', 'discard', 'remove', 'pop', 'difference_update',
+            'intersection_update', 'symmetric_difference_update'}
+
+
+def r210(ctx) -> None:
+    """The set of deferred removals (expunges of other sessions that were
+    seen while a sequence-number command ran) is state ACROSS commands: the
+    session's position in the change log has already moved past those expunge
+    records, so an entry that is dropped without being applied is never
+    delivered again.  Every statement that can drop an entry is therefore
+    (a) in the class that owns the field and (b) dominated by the loop that
+    applies the entries."""
+    R = ctx.rule('R2.10', 'deferred removals are dropped only by applying '
+                 'them', 1)
+    fld = '_pending_remove'
+    synced = ctx.proj.cls(SEL, 'SynchronizedMessages')
+    init = synced.own_method('__init__')
+    if init is None or not any(
+            is_attr(t, fld, 'self') for st in walk_local(init.node)
+            for t in targets_of(st)):
+        raise AnchorError(f'SynchronizedMessages.__init__ does not create '
+                          f'{fld}: the deferral moved, re-audit R2.10')
+    seen = 0
+    for f in ctx.proj.all_funcs('pymap/'):
+        if f is init:
+            continue
+        uses = [n for n in walk_local(f.node)
+                if isinstance(n, ast.Attribute) and n.attr == fld]
+        if not uses:
+            continue
+        cfg = cfg_of(f)
+        drops = []
+        for n in cfg.stmt_nodes():
+            st = n.stmt
+            for c in n.calls():
+                if isinstance(c.func, ast.Attribute) and \
+                        is_attr(c.func.value, fld) and \
+                        c.func.attr in DROPPING:
+                    drops.append((n, txt(c)))
+            for t in targets_of(st) if n.kind == 'stmt' else []:
+                if is_attr(t, fld):
+                    drops.append((n, txt(st)))
+            if isinstance(st, ast.Delete) and any(
+                    fld in txt(t) for t in st.targets):
+                drops.append((n, txt(st)))
+        own = f.cls is synced
+        appliers = [h for h in cfg.nodes if h.kind == 'for_iter'
+                    and any(is_attr(a, fld) for a in ast.walk(h.stmt.iter))]
+        for n, what in drops:
+            seen += 1
+            key = f'{f.qualname}: {what[:60]}'
+            if not own:
+                R.fail(f, n.stmt, key,
+                       f'`{what}` drops deferred removals from outside '
+                       f'SynchronizedMessages: the set holds expunges of '
+                       f'OTHER sessions that were postponed while a '
+                       f'sequence-number command ran; the session\'s '
+                       f'mod-sequence is already past them, so once dropped '
+                       f'they are never reported (* n EXPUNGE never sent, a '
+                       f'phantom message stays in this session\'s view)')
+                continue
+            R.check(bool(appliers) and cfg.dominated_by(n, appliers), f,
+                    n.stmt, key,
+                    f'`{what}` can run without the loop that applies the '
+                    f'deferred removals having run: the postponed expunges '
+                    f'are forgotten instead of delivered',
+                    'dominated by the loop over the deferred set')
+    if seen == 0:
+        R.undecided(synced.own_method('_remove') or init, init.node,
+                    'deferred set is drained somewhere',
+                    f'no statement drops entries of {fld}')
